@@ -137,6 +137,68 @@ Proof.
         simpl in En. eapply IHl; eauto.
 Qed.
 
+Lemma filter_none {A} (p : A -> bool) l : forallb (fun x => negb (p x)) l = true -> filter p l = [].
+Proof.
+  induction l as [|a l IH]; simpl; intros H; [reflexivity|]. apply andb_true_iff in H. destruct H as [Ha H].
+  apply negb_true_iff in Ha. rewrite Ha. auto.
+Qed.
+Lemma filter_all {A} (p : A -> bool) l : forallb p l = true -> filter p l = l.
+Proof.
+  induction l as [|a l IH]; simpl; intros H; [reflexivity|]. apply andb_true_iff in H. destruct H as [Ha H].
+  rewrite Ha. f_equal. auto.
+Qed.
+
+Lemma find_idx_nth {A} (p : A -> bool) l i :
+  find_idx p l = Some i -> exists a, nth_error l i = Some a /\ p a = true.
+Proof.
+  revert i. induction l as [|a l IH]; simpl; intros i H; [discriminate|].
+  destruct (p a) eqn:Ea.
+  - inversion H; subst. exists a. auto.
+  - destruct (find_idx p l) as [i'|]; simpl in H; [|discriminate]. inversion H; subst. simpl. auto.
+Qed.
+
+(** when no other element satisfies [p], moving the first [p]-element to the front is
+    "the [p]-element, then the others in order" *)
+Lemma move_front_filter {A} (p : A -> bool) l i :
+  find_idx p l = Some i -> forallb (fun x => negb (p x)) (remove_nth i l) = true ->
+  exists d, move_to_front i l = d :: remove_nth i l /\ filter p l = [d] /\
+            filter (fun x => negb (p x)) l = remove_nth i l.
+Proof.
+  revert i. induction l as [|a l IH]; simpl; intros i Hf Hr; [discriminate|].
+  destruct (p a) eqn:Ea.
+  - inversion Hf; subst i. simpl in *. exists a. unfold move_to_front. simpl.
+    split; [reflexivity|]. rewrite (filter_none p l Hr). split; [reflexivity|].
+    apply filter_all. exact Hr.
+  - destruct (find_idx p l) as [i'|] eqn:Ei; simpl in Hf; [|discriminate]. inversion Hf; subst i.
+    simpl in Hr. rewrite Ea in Hr. simpl in Hr.
+    destruct (IH i' eq_refl Hr) as [d [H1 [H2 H3]]]. exists d. unfold move_to_front in *. simpl.
+    destruct (find_idx_nth p l i' Ei) as [x [Hx _]]. rewrite Hx in *.
+    inversion H1; subst. split; [reflexivity|]. split; [exact H2|]. rewrite H3. reflexivity.
+Qed.
+
+Lemma in_remove_nth {A} i (l : list A) x : In x (remove_nth i l) -> In x l.
+Proof.
+  revert i. induction l as [|b l IH]; intros i H; [destruct i; simpl in H; tauto|].
+  destruct i; simpl in H |- *; [auto|]. destruct H as [->|H]; [auto|]. right. eapply IH; eauto.
+Qed.
+Lemma NoDup_remove_nth {A B} (f : A -> B) i l d :
+  NoDup (map f l) -> nth_error l i = Some d ->
+  NoDup (map f (d :: remove_nth i l)) /\ (forall x, In x (remove_nth i l) -> f x <> f d).
+Proof.
+  revert i. induction l as [|a l IH]; intros i ND Hn; [destruct i; discriminate|].
+  simpl in ND. inversion ND as [|? ? Hna ND']; subst. destruct i as [|i]; simpl in Hn.
+  - inversion Hn; subst a. simpl. split; [constructor; assumption|].
+    intros x Hx E. apply Hna. rewrite <- E. apply in_map. exact Hx.
+  - destruct (IH i ND' Hn) as [H1 H2]. simpl in H1. inversion H1 as [|? ? Hnd H1']; subst. simpl. split.
+    + constructor.
+      * simpl. intros [E|HI]; [|contradiction].
+        apply Hna. rewrite E. apply in_map. eapply nth_error_In; eauto.
+      * constructor; [|exact H1']. intros HI. apply Hna.
+        apply in_map_iff in HI. destruct HI as [x [Ex Hx]]. rewrite <- Ex. apply in_map.
+        eapply in_remove_nth; eauto.
+    + intros x [->|Hx]; [|auto]. intros E. apply Hna. rewrite E. apply in_map. eapply nth_error_In; eauto.
+Qed.
+
 (* ------------------------------------------------------------------------------------------ *)
 (** * Feature text *)
 
@@ -936,5 +998,767 @@ Proof.
   intros o f Hv. destruct (load_spec_write norad_choices o f Hv) as [t [H1 H2]].
   exists t. split; [apply save_is_spec_write; assumption|]. split; assumption.
 Qed.
+
+
+(* ------------------------------------------------------------------------------------------ *)
+(** ** what a successful load tells *)
+
+Ltac bind_inv H :=
+  repeat match type of H with
+         | bind ?x _ = Ok _ =>
+             let E := fresh "E" in destruct x eqn:E; cbn [bind] in H; [|discriminate H|discriminate H]
+         end.
+
+Lemma load_elim : forall (t : tree) (f : font),
+  load S t = Ok f ->
+  exists mc m olib il og ok ls,
+    t_meta S t = Some mc /\ dec (P_meta S) mc = Some m /\
+    load_opt S (P_lib S) (t_lib S t) 2 = Ok olib /\
+    match t_info S t with
+    | None => Ok (info_dflt S, lib0_of olib)
+    | Some c => load_fontinfo S (m_version m) c (lib0_of olib)
+    end = Ok il /\
+    load_opt S (P_groups S) (t_groups S t) 3 = Ok og /\
+    (forall g, og = Some g -> groups_ok S g = true) /\
+    load_opt S (P_kerning S) (t_kerning S t) 4 = Ok ok /\
+    load_layers S t (m_version m) = Ok ls /\
+    f_meta S f = {| m_creator := m_creator m; m_version := 3; m_minor := m_minor m |} /\
+    f_layers S f = ls /\ f_data S f = store_loaded (t_data S t) /\ f_images S f = store_loaded (t_images S t) /\
+    (m_version m = 3 ->
+     f_info S f = fst il /\ f_lib S f = snd il /\ f_groups S f = dflt_opt (groups_dflt S) og /\
+     f_kerning S f = dflt_opt (kerning_dflt S) ok /\ f_features S f = dflt_opt [] (t_features S t)).
+Proof.
+  intros t f H. unfold load in H.
+  destruct (t_meta S t) as [mc|] eqn:Em; [|discriminate].
+  destruct (dec (P_meta S) mc) as [m|] eqn:Ed; [|discriminate].
+  cbv zeta in H. bind_inv H. inversion H; subst f; clear H.
+  assert (Hg : a2 = a1 /\ forall g, a1 = Some g -> groups_ok S g = true).
+  { destruct a1 as [g|]; [destruct (groups_ok S g) eqn:Eg|]; inversion E2; split; auto.
+    - intros g' Hx. inversion Hx; subst. exact Eg.
+    - discriminate. }
+  destruct Hg as [-> Hg].
+  exists mc, m, a, a0, a1, a3, a4. cbn [f_meta f_layers f_data f_images f_info f_lib f_groups f_kerning f_features].
+  repeat (split; [solve [auto]|]).
+  intros Hv3. rewrite Hv3 in E5, E6. change (3 =? 3) with true in E5. change (3 =? 1) with false in E6.
+  inversion E5; inversion E6; subst. cbn [fst snd]. unfold dflt_opt. repeat split; reflexivity.
+Qed.
+
+Lemma load_version_3 : forall (t : tree) (f : font), load S t = Ok f -> m_version (f_meta S f) = 3.
+Proof.
+  intros t f H. destruct (load_elim t f H) as (mc & m & olib & il & og & ok & ls & _ & _ & _ & _ & _ & _ & _ & _ & Hm & _).
+  rewrite Hm. reflexivity.
+Qed.
+
+
+(* ------------------------------------------------------------------------------------------ *)
+(** ** norad's reader and the independent reader agree *)
+
+Lemma load_opt_spec {X} (p : part content opts X) c n o d :
+  load_opt S p c n = Ok o -> spec_read_opt S p c d = Some (dflt_opt d o).
+Proof.
+  unfold load_opt, spec_read_opt. destruct c as [c|]; [destruct (dec p c)|]; intros H; inversion H; reflexivity.
+Qed.
+
+Lemma spec_attach_del : forall (gs : list (T_gbody S * option str)) id ol,
+  ~ In id (some_ids (map snd gs)) -> spec_attach S gs (d_del S id ol) = spec_attach S gs ol.
+Proof.
+  induction gs as [|g r IH]; simpl; intros id ol Hn; [reflexivity|].
+  destruct (snd g) as [x|] eqn:Ex; simpl in Hn.
+  - rewrite IH by tauto. rewrite (get_del S OK). rewrite str_eqb_neq; [reflexivity|]. intros ->. tauto.
+  - rewrite IH by tauto. reflexivity.
+Qed.
+
+Lemma attach_spec : forall (gs : list (T_gbody S * option str)) ol r,
+  NoDup (some_ids (map snd gs)) -> attach_libs S gs ol = Ok r -> spec_attach S gs ol = Some r.
+Proof.
+  induction gs as [|g gs IH]; simpl; intros ol r ND H; [inversion H; reflexivity|].
+  destruct (snd g) as [id|] eqn:Eid; simpl in ND.
+  - inversion ND as [|? ? Hn ND']; subst.
+    destruct (d_get S id ol) as [v|] eqn:Ev.
+    + destruct (as_dict S v) as [l|]; [|discriminate].
+      destruct (attach_libs S gs (d_del S id ol)) as [r'| |] eqn:Er; simpl in H; try discriminate.
+      apply IH in Er; [|assumption]. rewrite spec_attach_del in Er by assumption. rewrite Er. simpl.
+      inversion H; reflexivity.
+    + destruct (attach_libs S gs ol) as [r'| |] eqn:Er; simpl in H; try discriminate.
+      rewrite (IH _ _ ND' Er). simpl. inversion H; reflexivity.
+  - destruct (attach_libs S gs ol) as [r'| |] eqn:Er; simpl in H; try discriminate.
+    rewrite (IH _ _ ND Er). simpl. inversion H; reflexivity.
+Qed.
+
+Lemma attach_ids : forall (gs : list (T_gbody S * option str)) ol r,
+  attach_libs S gs ol = Ok r -> map g_id r = map snd gs.
+Proof.
+  induction gs as [|g gs IH]; simpl; intros ol r H; [inversion H; reflexivity|].
+  destruct (snd g) as [id|] eqn:Eid.
+  - destruct (d_get S id ol) as [v|].
+    + destruct (as_dict S v) as [l|]; [|discriminate].
+      destruct (attach_libs S gs (d_del S id ol)) as [r'| |] eqn:Er; simpl in H; try discriminate.
+      inversion H; subst. simpl. f_equal. eauto.
+    + destruct (attach_libs S gs ol) as [r'| |] eqn:Er; simpl in H; try discriminate.
+      inversion H; subst. simpl. rewrite Eid. f_equal. eauto.
+  - destruct (attach_libs S gs ol) as [r'| |] eqn:Er; simpl in H; try discriminate.
+    inversion H; subst. simpl. rewrite Eid. f_equal. eauto.
+Qed.
+
+Lemma load_glyphs_spec : forall (d : ldir S) cl gl,
+  mapM (load_glyph S d) cl = Ok gl ->
+  omapM (fun ce : str * str =>
+           obind (alookup (snd ce) (ld_glifs S d)) (fun gc =>
+           option_map (fun g => (fst ce, snd ce, set_name S (fst ce) g)) (dec (P_glif S) gc))) cl = Some gl.
+Proof.
+  intros d cl gl H. apply omapM_Forall2. apply mapM_Forall2 in H.
+  eapply Forall2_impl_in; [|exact H]. intros e b _ _ He. cbv beta in He. unfold load_glyph in He.
+  destruct (alookup (snd e) (ld_glifs S d)) as [gc|]; [|discriminate]. simpl.
+  destruct (dec (P_glif S) gc); [|discriminate]. inversion He; reflexivity.
+Qed.
+
+Lemma load_layer_spec : forall (t : tree) e (l : lay),
+  load_layer S t e = Ok l -> spec_read_layer S t e = Some l.
+Proof.
+  intros t e l H. unfold load_layer in H. unfold spec_read_layer.
+  destruct (alookup (snd e) (t_dirs S t)) as [d|]; [|discriminate]. cbn [obind].
+  destruct (ld_contents S d) as [cc|]; [|discriminate]. cbn [obind].
+  destruct (dec (P_contents S) cc) as [cl|]; [|discriminate]. cbn [obind].
+  destruct (mapM (load_glyph S d) cl) as [gl| |] eqn:Eg; simpl in H; try discriminate.
+  rewrite (load_glyphs_spec _ _ _ Eg). cbn [obind].
+  destruct (load_opt S (P_li S) (ld_info S d) 8) as [li| |] eqn:El; simpl in H; try discriminate.
+  rewrite (load_opt_spec _ _ _ _ (None, None) El). cbn [obind]. inversion H; subst.
+  destruct li as [[c [x|]]|]; reflexivity.
+Qed.
+
+Definition default_first (ls : list lay) : Prop :=
+  match ls with
+  | [] => False
+  | d :: r => l_dir d = GLYPHS /\ Forall (fun l : lay => l_dir l <> GLYPHS) r
+  end.
+
+Lemma load_layers_spec : forall (t : tree) ls,
+  load_layers S t 3 = Ok ls -> default_first ls ->
+  exists lcc lc ls0, t_lcontents S t = Some lcc /\ dec (P_lc S) lcc = Some lc /\
+                     omapM (spec_read_layer S t) lc = Some ls0 /\ spec_default_first S ls0 = Some ls.
+Proof.
+  intros t ls H Hdf. unfold load_layers in H.
+  destruct (t_lcontents S t) as [lcc|] eqn:E1; [|discriminate].
+  destruct (dec (P_lc S) lcc) as [lc|] eqn:E2; [|discriminate]. cbn [bind] in H.
+  destruct (mapM (load_layer S t) lc) as [ls0| |] eqn:Em; simpl in H; try discriminate.
+  destruct (find_idx (is_default_dir S) ls0) as [i|] eqn:Ei; [|discriminate]. inversion H; subst ls.
+  exists lcc, lc, ls0. split; [reflexivity|]. split; [exact E2|]. split.
+  - apply omapM_Forall2. apply mapM_Forall2 in Em. eapply Forall2_impl_in; [|exact Em].
+    intros a b _ _ Hab. apply load_layer_spec. exact Hab.
+  - destruct (find_idx_nth _ _ _ Ei) as [d [Hd _]].
+    unfold move_to_front in Hdf. rewrite Hd in Hdf. destruct Hdf as [_ Hr].
+    destruct (move_front_filter (is_default_dir S) ls0 i Ei) as [d' [H1 [H2 H3]]].
+    + apply forallb_forall. intros x Hx. rewrite Forall_forall in Hr. apply negb_true_iff.
+      apply str_eqb_neq. apply Hr. exact Hx.
+    + unfold spec_default_first. change SPEC_GLYPHS with GLYPHS.
+      change (fun l : lay => str_eqb (l_dir l) GLYPHS) with (is_default_dir S).
+      rewrite H2. change (fun l : lay => negb (str_eqb (l_dir l) GLYPHS)) with (fun l => negb (is_default_dir S l)).
+      rewrite H3, H1. reflexivity.
+Qed.
+
+(** every format-3 tree that norad loads into a font with one default layer, no left-over
+    [public.objectLibs] and distinct guideline identifiers is read by the independent reader as
+    exactly the same font *)
+Theorem readers_agree : forall (t : tree) (f : font) mc m,
+  load S t = Ok f ->
+  t_meta S t = Some mc -> dec (P_meta S) mc = Some m -> m_version m = 3 ->
+  d_get S OBJ (f_lib S f) = None ->
+  NoDup (some_ids (map g_id (guides_of S (f_info S f)))) ->
+  default_first (f_layers S f) ->
+  spec_read S t = Some f.
+Proof.
+  intros t f mc m H Hm1 Hm2 Hv Hobj HND Hdf.
+  destruct (load_elim t f H) as (mc' & m' & olib & il & og & ok & ls & E1 & E2 & E3 & E4 & E5 & E6 & E7 & E8 &
+                                 F1 & F2 & F3 & F4 & F5).
+  rewrite Hm1 in E1. inversion E1; subst mc'. rewrite Hm2 in E2. inversion E2; subst m'.
+  destruct (F5 Hv) as (G1 & G2 & G3 & G4 & G5). rewrite Hv in *.
+  rewrite F2 in Hdf. destruct (load_layers_spec t ls E8 Hdf) as (lcc & lc & ls0 & L1 & L2 & L3 & L4).
+  unfold spec_read. rewrite Hm1. cbn [obind]. rewrite Hm2. cbn [obind]. rewrite Hv.
+  change (negb (3 =? 3)) with false. cbv iota.
+  rewrite (load_opt_spec _ _ _ _ (d_empty S) E3). cbn [obind]. change (dflt_opt (d_empty S) olib) with (lib0_of olib).
+  (* font info and object libs *)
+  assert (HI : exists si gl,
+             spec_read_opt S (P_info S) (t_info S t) (irest_dflt S, None) = Some si /\
+             match d_get S SPEC_OBJ (lib0_of olib) with
+             | None => Some (option_map (map (bare S)) (snd si), lib0_of olib)
+             | Some v => obind (as_dict S v) (fun ol =>
+                         match snd si with
+                         | None => Some (None, d_del S SPEC_OBJ (lib0_of olib))
+                         | Some gs => option_map (fun gs' => (Some gs', d_del S SPEC_OBJ (lib0_of olib)))
+                                                 (spec_attach S gs ol)
+                         end)
+             end = Some gl /\
+             il = ({| i_rest := fst si; i_guides := fst gl |}, snd gl)).
+  { change SPEC_OBJ with OBJ. destruct (t_info S t) as [c|].
+    - unfold load_fontinfo in E4. change (3 =? 3) with true in E4. cbv iota in E4. simpl.
+      destruct (dec (P_info S) c) as [si|]; [|discriminate].
+      destruct (info_ok S _); [|discriminate].
+      destruct (load_object_libs S (snd si) (lib0_of olib)) as [r| |] eqn:Er; simpl in E4; try discriminate.
+      inversion E4; subst il. exists si. unfold load_object_libs in Er.
+      destruct (d_get S OBJ (lib0_of olib)) as [v|].
+      + destruct (as_dict S v) as [ol|]; [|discriminate]. cbn [obind].
+        destruct (snd si) as [gs|] eqn:Es.
+        * destruct (attach_libs S gs ol) as [gs'| |] eqn:Ea; simpl in Er; try discriminate.
+          inversion Er; subst r. rewrite (attach_spec gs ol gs'); [|  |exact Ea].
+          -- simpl. eexists. split; [reflexivity|]. split; reflexivity.
+          -- rewrite <- (attach_ids _ _ _ Ea). rewrite G1 in HND. exact HND.
+        * inversion Er; subst r. eexists. split; [reflexivity|]. split; reflexivity.
+      + inversion Er; subst r. eexists. split; [reflexivity|]. split; reflexivity.
+    - inversion E4; subst il. exists (irest_dflt S, None). simpl.
+      rewrite G2 in Hobj. simpl in Hobj. rewrite Hobj.
+      eexists. split; [reflexivity|]. split; reflexivity. }
+  destruct HI as (si & gl & I1 & I2 & I3). rewrite I1. cbn [obind]. rewrite I2. cbn [obind].
+  rewrite (load_opt_spec _ _ _ _ (groups_dflt S) E5). cbn [obind].
+  rewrite (load_opt_spec _ _ _ _ (kerning_dflt S) E7). cbn [obind].
+  rewrite L1. cbn [obind]. rewrite L2. cbn [obind]. rewrite L3. cbn [obind]. rewrite L4. cbn [obind].
+  f_equal. destruct f as [fm fi fl fg fk ff fls fd fim]. simpl in *. subst. simpl.
+  destruct m as [mcr mv mmi]. simpl in *. subst mv. reflexivity.
+Qed.
+
+
+(* ------------------------------------------------------------------------------------------ *)
+(** ** consequences: the specification reader on specification-written (and norad-written) trees *)
+
+Lemma spec_write_meta : forall c o (f : font) t,
+  spec_write S c o f = Some t ->
+  exists mc, t_meta S t = Some mc /\
+             enc (P_meta S) o {| m_creator := Some NORAD_CREATOR; m_version := 3; m_minor := m_minor (f_meta S f) |} = Some mc.
+Proof.
+  intros c o f t H. unfold spec_write in H. change (n_creator spec_names) with NORAD_CREATOR in H.
+  destruct (enc (P_meta S) o _) as [mc|]; [|discriminate]. cbn [obind] in H.
+  repeat match type of H with
+         | obind ?x _ = Some _ => destruct x; cbn [obind] in H; [|discriminate H]
+         end.
+  inversion H. exists mc. split; reflexivity.
+Qed.
+
+Lemma gl_eq_ids : forall (a b : list guide), Forall2 gl_eq a b -> map g_id a = map g_id b.
+Proof. induction 1 as [|x y a b [H _] F IH]; simpl; congruence. Qed.
+
+Lemma equiv_structure : forall (f f' : font),
+  font_equiv S f f' ->
+  d_get S OBJ (f_lib S f) = None ->
+  NoDup (some_ids (map g_id (guides_of S (f_info S f)))) ->
+  default_first (f_layers S f) ->
+  d_get S OBJ (f_lib S f') = None /\
+  NoDup (some_ids (map g_id (guides_of S (f_info S f')))) /\
+  default_first (f_layers S f').
+Proof.
+  intros f f' (_ & _ & [_ Hg] & Hl & _ & _ & _ & Hls & _) Hobj HND Hdf. split; [|split].
+  - apply (deq_get S OK) with (k := OBJ) in Hl. rewrite Hobj in Hl. apply (orel_none_l (veq S)) in Hl. exact Hl.
+  - unfold guides_of in *. destruct (i_guides (f_info S f)) as [a|]; destruct (i_guides (f_info S f')) as [b|];
+      simpl in Hg; try tauto.
+    rewrite <- (gl_eq_ids a b Hg). exact HND.
+  - destruct (f_layers S f) as [|d r]; [destruct Hdf|]. destruct Hdf as [Hd Hr].
+    inversion Hls as [|? d' ? r' Hdd Hrr]; subst. simpl. split.
+    + destruct Hdd as (_ & Hdir & _). congruence.
+    + apply Forall2_flip in Hrr. apply Forall_forall. intros x Hx.
+      destruct (Forall2_in_l _ _ _ _ Hrr Hx) as [y [Hy (_ & Hdir & _)]].
+      rewrite Forall_forall in Hr. rewrite <- Hdir. apply Hr. exact Hy.
+Qed.
+
+(** the specification reader inverts every conforming writer (up to the property's equality);
+    in particular it finds the font in what norad saved *)
+Theorem spec_read_spec_write : forall c o (f : font),
+  font_valid S f ->
+  exists t, spec_write S c o f = Some t /\ exists f', spec_read S t = Some f' /\ font_equiv S f f'.
+Proof.
+  intros c o f Hv. destruct (load_spec_write c o f Hv) as [t [Hw [f' [Hl He]]]].
+  exists t. split; [exact Hw|]. exists f'. split; [|exact He].
+  destruct (spec_write_meta c o f t Hw) as [mc [Hm1 Hm2]].
+  pose proof Hv as (Hver & Hmeta & _ & _ & _ & HND & _ & Hobj & _ & _ & _ & Hlay).
+  rewrite (meta_to_write_v3 _ Hver) in Hmeta.
+  destruct (rt _ (ok_meta S OK) o _ Hmeta) as [mc' [m' [R1 [R2 R3]]]].
+  rewrite Hm2 in R1. inversion R1; subst mc'. apply (meta_exact S OK) in R3. subst m'.
+  destruct (equiv_structure f f' He Hobj HND) as (A1 & A2 & A3).
+  { destruct Hlay as [Hf _]. exact Hf. }
+  eapply readers_agree; eauto.
+Qed.
+
+
+(* ------------------------------------------------------------------------------------------ *)
+(** ** [font_equiv] is an equivalence; write options are irrelevant *)
+
+Lemma Forall2_sym' {A} (R : A -> A -> Prop) l r : (forall a b, R a b -> R b a) -> Forall2 R l r -> Forall2 R r l.
+Proof. intros H F. induction F; constructor; auto. Qed.
+
+Lemma oceq_li : forall a b : option (T_color S), orel (ceq S) a b <-> peq (P_li S) (a, None) (b, None).
+Proof. intros a b. rewrite (li_eq S OK). simpl. tauto. Qed.
+Lemma oceq_sym : forall a b : option (T_color S), orel (ceq S) a b -> orel (ceq S) b a.
+Proof. intros a b H. apply oceq_li. apply (peq_sym _ (ok_li S OK)). apply oceq_li. exact H. Qed.
+Lemma oceq_trans : forall a b c : option (T_color S), orel (ceq S) a b -> orel (ceq S) b c -> orel (ceq S) a c.
+Proof.
+  intros a b c H1 H2. apply oceq_li. eapply (peq_trans _ (ok_li S OK)); apply oceq_li; eassumption.
+Qed.
+
+Lemma gl_eq_sym : forall a b, gl_eq a b -> gl_eq b a.
+Proof. intros a b [H1 H2]. split; [congruence|]. apply (orel_sym _ deq_sym). exact H2. Qed.
+Lemma gl_eq_trans : forall a b c, gl_eq a b -> gl_eq b c -> gl_eq a c.
+Proof. intros a b c [H1 H2] [H3 H4]. split; [congruence|]. eapply (orel_trans _ deq_trans); eassumption. Qed.
+
+Lemma info_eq_sym : forall a b, info_eq S a b -> info_eq S b a.
+Proof.
+  intros a b [H1 H2]. split; [apply (peq_sym _ (ok_info S OK)); exact H1|].
+  apply (orel_sym (Forall2 gl_eq)); [|exact H2]. intros x y F. apply Forall2_sym'; [apply gl_eq_sym|exact F].
+Qed.
+Lemma info_eq_trans : forall a b c, info_eq S a b -> info_eq S b c -> info_eq S a c.
+Proof.
+  intros a b c [H1 H2] [H3 H4]. split; [eapply (peq_trans _ (ok_info S OK)); eassumption|].
+  eapply (orel_trans (Forall2 gl_eq)); [|exact H2|exact H4].
+  intros x y z F G. eapply Forall2_trans'; [|exact F|exact G]. apply gl_eq_trans.
+Qed.
+
+Lemma glyph_entry_eq_sym : forall a b, glyph_entry_eq S a b -> glyph_entry_eq S b a.
+Proof. intros a b [H1 H2]. split; [congruence|apply (peq_sym _ (ok_glif S OK)); exact H2]. Qed.
+Lemma glyph_entry_eq_trans : forall a b c, glyph_entry_eq S a b -> glyph_entry_eq S b c -> glyph_entry_eq S a c.
+Proof. intros a b c [H1 H2] [H3 H4]. split; [congruence|eapply (peq_trans _ (ok_glif S OK)); eassumption]. Qed.
+
+Lemma layer_eq_sym : forall a b, layer_eq S a b -> layer_eq S b a.
+Proof.
+  intros a b (H1 & H2 & H3 & H4 & H5).
+  split; [congruence|]. split; [congruence|]. split; [apply oceq_sym; exact H3|].
+  split; [apply deq_sym; exact H4|]. apply Forall2_sym'; [apply glyph_entry_eq_sym|exact H5].
+Qed.
+Lemma layer_eq_trans : forall a b c, layer_eq S a b -> layer_eq S b c -> layer_eq S a c.
+Proof.
+  intros a b c (H1 & H2 & H3 & H4 & H5) (G1 & G2 & G3 & G4 & G5).
+  split; [congruence|]. split; [congruence|]. split; [eapply oceq_trans; eassumption|].
+  split; [eapply deq_trans; eassumption|]. eapply Forall2_trans'; [apply glyph_entry_eq_trans|exact H5|exact G5].
+Qed.
+
+Theorem font_equiv_sym : forall a b, font_equiv S a b -> font_equiv S b a.
+Proof.
+  intros a b (H1 & H2 & H3 & H4 & H5 & H6 & H7 & H8 & H9 & H10).
+  split; [congruence|]. split; [congruence|].
+  split; [apply info_eq_sym; assumption|].
+  split; [apply deq_sym; assumption|].
+  split; [apply (peq_sym _ (ok_groups S OK)); assumption|].
+  split; [apply (peq_sym _ (ok_kerning S OK)); assumption|].
+  split; [apply feq_sym; assumption|].
+  split; [apply Forall2_sym'; [apply layer_eq_sym|assumption]|].
+  split; congruence.
+Qed.
+Theorem font_equiv_trans : forall a b c, font_equiv S a b -> font_equiv S b c -> font_equiv S a c.
+Proof.
+  intros a b c (H1 & H2 & H3 & H4 & H5 & H6 & H7 & H8 & H9 & H10) (G1 & G2 & G3 & G4 & G5 & G6 & G7 & G8 & G9 & G10).
+  split; [congruence|]. split; [congruence|].
+  split; [eapply info_eq_trans; eassumption|].
+  split; [eapply deq_trans; eassumption|].
+  split; [eapply (peq_trans _ (ok_groups S OK)); eassumption|].
+  split; [eapply (peq_trans _ (ok_kerning S OK)); eassumption|].
+  split; [eapply feq_trans; eassumption|].
+  split; [eapply Forall2_trans'; [apply layer_eq_trans|eassumption|eassumption]|].
+  split; congruence.
+Qed.
+
+Theorem options_irrelevant : forall o1 o2 (f : font),
+  font_valid S f ->
+  exists t1 t2 f1 f2, save S o1 f = Ok t1 /\ save S o2 f = Ok t2 /\
+                      load S t1 = Ok f1 /\ load S t2 = Ok f2 /\ font_equiv S f1 f2.
+Proof.
+  intros o1 o2 f Hv.
+  destruct (save_load_roundtrip o1 f Hv) as (t1 & S1 & _ & f1 & L1 & E1).
+  destruct (save_load_roundtrip o2 f Hv) as (t2 & S2 & _ & f2 & L2 & E2).
+  exists t1, t2, f1, f2. repeat (split; [assumption|]).
+  eapply font_equiv_trans; [apply font_equiv_sym; exact E1|exact E2].
+Qed.
+
+
+(* ------------------------------------------------------------------------------------------ *)
+(** ** which files exist: gating of the optional files, and the defaults of the reader *)
+
+Lemma write_opt_none {X} (p : part content opts X) o skip x n oc :
+  write_opt S p o skip x n = Ok oc -> (oc = None <-> skip = true).
+Proof.
+  unfold write_opt. destruct skip; intros H.
+  - inversion H. tauto.
+  - destruct (enc p o x); inversion H. split; discriminate.
+Qed.
+
+Lemma no_libs_iff : forall gs : list guide,
+  Forall (guide_ok S) gs -> NoDup (some_ids (map g_id gs)) ->
+  ((forall k, olookup k gs = None) <-> Forall (fun g : guide => g_lib g = None) gs).
+Proof.
+  intros gs HF ND. split.
+  - intros H. apply Forall_forall. intros g Hg. destruct (g_lib g) as [l|] eqn:El; [|reflexivity].
+    rewrite Forall_forall in HF. destruct (HF g Hg) as [H1 _]. destruct (H1 l El) as [_ [id Hid]].
+    pose proof (olookup_unique gs g id ND Hg Hid) as Hu. rewrite H, El in Hu. discriminate.
+  - intros H k. destruct (olookup k gs) as [l|] eqn:E; [|reflexivity].
+    destruct (olookup_some_in _ _ _ E) as [g [Hg [_ Hl]]]. rewrite Forall_forall in H.
+    rewrite (H g Hg) in Hl. discriminate.
+Qed.
+
+Definition layer_gating (l : lay) (d : str * ldir S) : Prop :=
+  fst d = l_dir l /\ ld_contents S (snd d) <> None /\
+  (ld_info S (snd d) = None <-> l_color l = None /\ d_is_empty S (l_lib l) = true) /\
+  map fst (ld_glifs S (snd d)) = map file_of (l_glyphs l).
+
+Lemma save_layer_gating : forall o (l : lay) d, save_layer S o l = Ok d -> layer_gating l d.
+Proof.
+  intros o l d H. unfold save_layer in H. bind_inv H. inversion H; subst d. clear H. unfold layer_gating. simpl.
+  split; [reflexivity|]. split.
+  - apply write_opt_none in E. intros ->. destruct E as [E _]. specialize (E eq_refl). discriminate.
+  - split.
+    + apply write_opt_none in E0. rewrite E0. unfold layerinfo_skipped. rewrite andb_true_iff.
+      destruct (l_color l); simpl; split; intros [H1 H2]; try discriminate; auto.
+    + apply mapM_Forall2 in E1. clear -E1. induction E1 as [|e b gl r He F IH]; [reflexivity|].
+      simpl. rewrite IH. f_equal. unfold save_glyph in He.
+      destruct (enc (P_glif S) o (snd e)); inversion He. reflexivity.
+Qed.
+
+Theorem gating_sound : forall o (f : font) (t : tree),
+  font_valid S f -> save S o f = Ok t ->
+  t_meta S t <> None /\ t_lcontents S t <> None /\
+  (t_info S t = None <-> info_is_default S (f_info S f) = true) /\
+  (t_lib S t = None <-> d_is_empty S (f_lib S f) = true /\
+                        Forall (fun g : guide => g_lib g = None) (guides_of S (f_info S f))) /\
+  (t_groups S t = None <-> groups_is_empty S (f_groups S f) = true) /\
+  (t_kerning S t = None <-> kerning_is_empty S (f_kerning S f) = true) /\
+  (t_features S t = None <-> f_features S f = []) /\
+  (t_data S t = None <-> f_data S f = []) /\ (t_images S t = None <-> f_images S f = []) /\
+  Forall2 layer_gating (f_layers S f) (t_dirs S t).
+Proof.
+  intros o f t Hv H. pose proof Hv as (Hver & _ & _ & _ & HGF & HGN & _ & Hobj & Hgok & _).
+  unfold save in H. rewrite Hver in H. change (negb (3 =? 3)) with false in H. cbv iota in H.
+  destruct (d_mem S OBJ (f_lib S f)); [discriminate|].
+  destruct (negb (groups_ok S (f_groups S f))); [discriminate|].
+  destruct (negb (info_ok S (f_info S f))); [discriminate|].
+  bind_inv H. inversion H; subst t; clear H. simpl.
+  split. { apply write_opt_none in E. intros ->. destruct E as [E _]. specialize (E eq_refl). discriminate. }
+  split. { apply write_opt_none in E5. intros ->. destruct E5 as [E5 _]. specialize (E5 eq_refl). discriminate. }
+  split; [apply (write_opt_none _ _ _ _ _ _ E0)|].
+  split.
+  { rewrite (write_opt_none _ _ _ _ _ _ E2). unfold lib_to_write in E1.
+    destruct (dump_ok (guides_of S (f_info S f)) (d_empty S) HGF HGN) as [ol [Hd1 Hd2]].
+    rewrite Hd1 in E1. cbn [bind] in E1. inversion E1; subst a1. clear E1.
+    assert (Hol : d_is_empty S ol = true <-> Forall (fun g : guide => g_lib g = None) (guides_of S (f_info S f))).
+    { rewrite <- (no_libs_iff _ HGF HGN). rewrite (is_empty_get S OK). split; intros H k; specialize (H k).
+      - rewrite Hd2 in H. destruct (olookup k (guides_of S (f_info S f))); [discriminate|reflexivity].
+      - rewrite Hd2, H. apply (get_empty S OK). }
+    destruct (d_is_empty S ol) eqn:Ee.
+    - split; [intros He; split; [exact He|apply Hol; reflexivity]|tauto].
+    - split.
+      + intros He. apply (is_empty_get S OK) with (k := OBJ) in He.
+        rewrite (get_set S OK), str_eqb_refl in He. discriminate.
+      + intros [_ Hn]. apply Hol in Hn. discriminate. }
+  split; [apply (write_opt_none _ _ _ _ _ _ E3)|].
+  split; [apply (write_opt_none _ _ _ _ _ _ E4)|].
+  split. { destruct (f_features S f); simpl; split; intros; congruence. }
+  split. { unfold store_to_write. destruct (f_data S f); simpl; split; intros; congruence. }
+  split. { unfold store_to_write. destruct (f_images S f); simpl; split; intros; congruence. }
+  apply mapM_Forall2 in E6. eapply Forall2_impl_in; [|exact E6]. intros l d _ _ Hl.
+  apply (save_layer_gating o). exact Hl.
+Qed.
+
+Lemma in_move_to_front {A} i (l : list A) x : In x (move_to_front i l) -> In x l.
+Proof.
+  unfold move_to_front. destruct (nth_error l i) as [a|] eqn:E; [|auto]. intros [<-|H].
+  - eapply nth_error_In; eauto.
+  - clear E. revert i H. induction l as [|b l IH]; intros i H; [destruct i; simpl in H; tauto|].
+    destruct i; simpl in H |- *; [auto|]. destruct H as [->|H]; [auto|]. right. eapply IH; eauto.
+Qed.
+
+Lemma load_layer_default : forall (t : tree) e (l : lay),
+  load_layer S t e = Ok l ->
+  l_dir l = snd e /\
+  forall d, alookup (snd e) (t_dirs S t) = Some d -> ld_info S d = None ->
+            l_color l = None /\ l_lib l = d_empty S.
+Proof.
+  intros t e l H. unfold load_layer in H.
+  destruct (alookup (snd e) (t_dirs S t)) as [d|]; [|discriminate].
+  destruct (ld_contents S d) as [cc|]; [|discriminate]. destruct (dec (P_contents S) cc); [|discriminate].
+  bind_inv H. inversion H; subst l; clear H. simpl. split; [reflexivity|].
+  intros d' Hd' Hn. inversion Hd'; subst d'. rewrite Hn in E0. simpl in E0. inversion E0; subst. auto.
+Qed.
+
+(** a missing optional file is read as the default value of its part *)
+Theorem load_defaults : forall (t : tree) (f : font) mc m,
+  load S t = Ok f -> t_meta S t = Some mc -> dec (P_meta S) mc = Some m -> m_version m = 3 ->
+  (t_info S t = None -> f_info S f = info_dflt S) /\
+  (t_lib S t = None -> f_lib S f = d_empty S) /\
+  (t_groups S t = None -> f_groups S f = groups_dflt S) /\
+  (t_kerning S t = None -> f_kerning S f = kerning_dflt S) /\
+  (t_features S t = None -> f_features S f = []) /\
+  (t_data S t = None -> f_data S f = []) /\ (t_images S t = None -> f_images S f = []) /\
+  (forall l d, In l (f_layers S f) -> alookup (l_dir l) (t_dirs S t) = Some d -> ld_info S d = None ->
+               l_color l = None /\ l_lib l = d_empty S).
+Proof.
+  intros t f mc m H Hm1 Hm2 Hv.
+  destruct (load_elim t f H) as (mc' & m' & olib & il & og & ok & ls & E1 & E2 & E3 & E4 & E5 & E6 & E7 & E8 &
+                                 F1 & F2 & F3 & F4 & F5).
+  rewrite Hm1 in E1. inversion E1; subst mc'. rewrite Hm2 in E2. inversion E2; subst m'.
+  destruct (F5 Hv) as (G1 & G2 & G3 & G4 & G5). rewrite Hv in *.
+  split. { intros Hn. rewrite Hn in E4. inversion E4; subst il. exact G1. }
+  split.
+  { intros Hn. rewrite Hn in E3. simpl in E3. inversion E3; subst olib. simpl in E4. rewrite G2.
+    destruct (t_info S t) as [c|]; [|inversion E4; reflexivity].
+    unfold load_fontinfo in E4. change (3 =? 3) with true in E4. cbv iota in E4.
+    destruct (dec (P_info S) c) as [si|]; [|discriminate]. destruct (info_ok S _); [|discriminate].
+    unfold load_object_libs in E4. rewrite (get_empty S OK) in E4. simpl in E4. inversion E4; reflexivity. }
+  split. { intros Hn. rewrite Hn in E5. inversion E5; subst og. exact G3. }
+  split. { intros Hn. rewrite Hn in E7. inversion E7; subst ok. exact G4. }
+  split. { intros Hn. rewrite Hn in G5. exact G5. }
+  split. { intros Hn. rewrite F3, Hn. reflexivity. }
+  split. { intros Hn. rewrite F4, Hn. reflexivity. }
+  intros l d Hl Hd Hi. rewrite F2 in Hl. unfold load_layers in E8.
+  bind_inv E8. destruct (find_idx (is_default_dir S) a0); [|discriminate]. inversion E8 as [Hls]. rewrite <- Hls in Hl.
+  apply in_move_to_front in Hl. apply mapM_Forall2 in E0. apply Forall2_flip in E0.
+  destruct (Forall2_in_l _ _ _ _ E0 Hl) as [e [_ He]]. cbv beta in He.
+  destruct (load_layer_default t e l He) as [Hdir Hdef]. rewrite Hdir in Hd. eapply Hdef; eauto.
+Qed.
+
+
+(* ------------------------------------------------------------------------------------------ *)
+(** ** layer order *)
+
+Theorem layer_order : forall c o (f : font),
+  font_valid S f ->
+  exists t f', spec_write S c o f = Some t /\ load S t = Ok f' /\
+               map l_name (f_layers S f') = map l_name (f_layers S f) /\
+               map l_dir (f_layers S f') = map l_dir (f_layers S f) /\
+               default_first (f_layers S f').
+Proof.
+  intros c o f Hv. destruct (load_spec_write c o f Hv) as (t & Hw & f' & Hl & He).
+  exists t, f'. split; [exact Hw|]. split; [exact Hl|].
+  pose proof Hv as (_ & _ & _ & _ & _ & HND & _ & Hobj & _ & _ & _ & (Hdf & _)).
+  destruct (equiv_structure f f' He Hobj HND Hdf) as (_ & _ & A3).
+  destruct He as (_ & _ & _ & _ & _ & _ & _ & Hls & _).
+  split; [|split; [|exact A3]].
+  - symmetry. clear -Hls. induction Hls as [|a b l r (H & _) F IH]; simpl; congruence.
+  - symmetry. clear -Hls. induction Hls as [|a b l r (_ & H & _) F IH]; simpl; congruence.
+Qed.
+
+
+(* ------------------------------------------------------------------------------------------ *)
+(** ** what is written is format 3 *)
+
+Theorem output_is_v3 : forall o (f : font) (t : tree),
+  font_valid S f -> save S o f = Ok t ->
+  exists mc m, t_meta S t = Some mc /\ dec (P_meta S) mc = Some m /\ m_version m = 3 /\
+               m_creator m = Some NORAD_CREATOR /\ m_minor m = m_minor (f_meta S f).
+Proof.
+  intros o f t Hv Hs. destruct (save_load_roundtrip o f Hv) as (t' & S1 & W & _).
+  rewrite Hs in S1. inversion S1; subst t'.
+  destruct (spec_write_meta _ _ _ _ W) as [mc [Hm1 Hm2]].
+  pose proof Hv as (Hver & Hmeta & _). rewrite (meta_to_write_v3 _ Hver) in Hmeta.
+  destruct (rt _ (ok_meta S OK) o _ Hmeta) as [mc' [m' [R1 [R2 R3]]]].
+  rewrite Hm2 in R1. inversion R1; subst mc'. apply (meta_exact S OK) in R3. subst m'.
+  exists mc. eexists. split; [exact Hm1|]. split; [exact R2|]. simpl. auto.
+Qed.
+
+(** a font that cannot be saved: not format 3, or a user-supplied public.objectLibs *)
+Theorem save_refuses : forall o (f : font),
+  (m_version (f_meta S f) <> 3 -> save S o f = Err SDowngrade) /\
+  (m_version (f_meta S f) = 3 -> d_get S OBJ (f_lib S f) <> None -> save S o f = Err SPreexistingObjectLibs).
+Proof.
+  intros o f. unfold save. split.
+  - intros H. apply N.eqb_neq in H. rewrite H. reflexivity.
+  - intros H1 H2. rewrite H1. change (negb (3 =? 3)) with false. cbv iota. unfold d_mem.
+    destruct (d_get S OBJ (f_lib S f)); [reflexivity|congruence].
+Qed.
+
+
+(* ------------------------------------------------------------------------------------------ *)
+(** ** C04: a loaded font is a valid font *)
+
+Section Closed.
+Hypothesis CL : sig_closed S.
+
+Lemma bare_guides_ok : forall gs : list (T_gbody S * option str),
+  (forall g, In g gs -> forall id, snd g = Some id -> wf_key S id) ->
+  Forall (guide_ok S) (map (bare S) gs).
+Proof.
+  intros gs H. apply Forall_forall. intros g Hg. apply in_map_iff in Hg. destruct Hg as [d [<- Hd]].
+  split; simpl; [discriminate|]. intros id Hid. eapply H; eauto.
+Qed.
+
+Lemma attach_props : forall (gs : list (T_gbody S * option str)) ol r,
+  attach_libs S gs ol = Ok r -> wf_dict S ol ->
+  (forall g, In g gs -> forall id, snd g = Some id -> wf_key S id) ->
+  map (strip_g S) r = gs /\ Forall (guide_ok S) r.
+Proof.
+  induction gs as [|g gs IH]; simpl; intros ol r H Hw Hids; [inversion H; split; constructor|].
+  assert (Hids' : forall g0, In g0 gs -> forall id, snd g0 = Some id -> wf_key S id)
+    by (intros; eapply Hids; eauto).
+  assert (Hbare : guide_ok S (bare S g)).
+  { split; simpl; [discriminate|]. intros id Hid. eapply Hids; eauto. }
+  destruct (snd g) as [id|] eqn:Eid.
+  - destruct (d_get S id ol) as [v|] eqn:Ev.
+    + destruct (as_dict S v) as [l|] eqn:El; [|discriminate].
+      destruct (attach_libs S gs (d_del S id ol)) as [r'| |] eqn:Er; simpl in H; try discriminate.
+      inversion H; subst r. destruct (IH _ _ Er (wf_dict_del _ _ Hw) Hids') as [H1 H2].
+      simpl. split.
+      * rewrite H1. f_equal. destruct g; simpl in *; subst; reflexivity.
+      * constructor; [|exact H2]. split; simpl.
+        -- intros x Hx. inversion Hx; subst x. split; [|eauto].
+           eapply (wf_as S OK); [|exact El]. apply (Hw id v Ev).
+        -- intros x Hx. inversion Hx; subst x. eapply Hids; eauto.
+    + destruct (attach_libs S gs ol) as [r'| |] eqn:Er; simpl in H; try discriminate.
+      inversion H; subst r. destruct (IH _ _ Er Hw Hids') as [H1 H2]. simpl. rewrite H1, strip_bare.
+      split; [reflexivity|constructor; assumption].
+  - destruct (attach_libs S gs ol) as [r'| |] eqn:Er; simpl in H; try discriminate.
+    inversion H; subst r. destruct (IH _ _ Er Hw Hids') as [H1 H2]. simpl. rewrite H1, strip_bare.
+    split; [reflexivity|constructor; assumption].
+Qed.
+
+Lemma load_object_libs_props : forall sg lib0 r,
+  load_object_libs S sg lib0 = Ok r -> wf_dict S lib0 ->
+  (forall g, In g (dflt_list sg) -> forall id, snd g = Some id -> wf_key S id) ->
+  option_map (map (strip_g S)) (fst r) = sg /\ wf_dict S (snd r) /\ d_get S OBJ (snd r) = None /\
+  Forall (guide_ok S) (dflt_list (fst r)).
+Proof.
+  intros sg lib0 r H Hw Hids. unfold load_object_libs in H.
+  destruct (d_get S OBJ lib0) as [v|] eqn:Ev.
+  - destruct (as_dict S v) as [ol|] eqn:Eol; [|discriminate].
+    assert (Hwol : wf_dict S ol) by (eapply (wf_as S OK); [apply (Hw OBJ v Ev)|exact Eol]).
+    assert (Hdel : d_get S OBJ (d_del S OBJ lib0) = None) by (rewrite (get_del S OK), str_eqb_refl; reflexivity).
+    destruct sg as [gs|].
+    + destruct (attach_libs S gs ol) as [gs'| |] eqn:Ea; simpl in H; try discriminate.
+      inversion H; subst r. simpl. destruct (attach_props _ _ _ Ea Hwol Hids) as [H1 H2].
+      rewrite H1. split; [reflexivity|]. split; [apply wf_dict_del; exact Hw|]. split; [exact Hdel|exact H2].
+    + inversion H; subst r. simpl. split; [reflexivity|]. split; [apply wf_dict_del; exact Hw|]. split; [exact Hdel|constructor].
+  - inversion H; subst r. simpl. split; [|split; [exact Hw|split; [exact Ev|]]].
+    + destruct sg; simpl; [rewrite map_strip_bare|]; reflexivity.
+    + destruct sg as [gs|]; simpl; [apply bare_guides_ok; exact Hids|constructor].
+Qed.
+
+Lemma alookup_some_in {V} k (l : list (str * V)) v : alookup k l = Some v -> In (k, v) l.
+Proof.
+  induction l as [|[k' v'] l IH]; simpl; intros H; [discriminate|].
+  destruct (str_eqb k k') eqn:E; [apply list_eqb_N_eq in E; inversion H; subst; auto|auto].
+Qed.
+
+Lemma load_layer_props : forall (t : tree) e (l : lay),
+  load_layer S t e = Ok l -> disk_wf S t ->
+  l_name l = fst e /\ l_dir l = snd e /\ layer_ok S l.
+Proof.
+  intros t e l H [_ Hdisk]. unfold load_layer in H.
+  destruct (alookup (snd e) (t_dirs S t)) as [d|] eqn:Ed; [|discriminate].
+  destruct (ld_contents S d) as [cc|] eqn:Ec; [|discriminate].
+  destruct (dec (P_contents S) cc) as [cl|] eqn:Ecl; [|discriminate].
+  bind_inv H. inversion H; subst l; clear H. simpl. split; [reflexivity|]. split; [reflexivity|].
+  apply mapM_Forall2 in E.
+  assert (Hfst : map fst a = cl).
+  { clear -E. induction E as [|x y l r Hxy F IH]; [reflexivity|]. simpl. rewrite IH. f_equal.
+    unfold load_glyph in Hxy. destruct (alookup (snd x) (ld_glifs S d)) as [gc|]; [|discriminate].
+    destruct (dec (P_glif S) gc); inversion Hxy. destruct x; reflexivity. }
+  unfold layer_ok. simpl.
+  assert (Hli : wf_dict S match a0 with Some (_, Some l0) => l0 | _ => d_empty S end /\
+                forall k, match a0 with Some v => fst v | None => None end = Some k -> wf_color S k).
+  { unfold load_opt in E0. destruct (ld_info S d) as [lic|].
+    - destruct (dec (P_li S) lic) as [[c ol]|] eqn:El; [|discriminate]. inversion E0; subst a0.
+      apply (cl_li S CL) in El. apply (li_wf S OK) in El. destruct El as [H1 H2]. simpl. split.
+      + destruct ol as [x|]; [apply H2; reflexivity|apply wf_dict_empty].
+      + exact H1.
+    - inversion E0; subst a0. split; [apply wf_dict_empty|discriminate]. }
+  destruct Hli as [Hl1 Hl2]. split; [exact Hl1|]. split; [exact Hl2|].
+  split. { unfold contents_of. simpl. rewrite Hfst. apply (cl_contents S CL _ _ Ecl). }
+  split.
+  { replace (map (fun e0 : str * str * T_glyph S => snd (fst e0)) a) with (map snd (map fst a))
+      by (rewrite map_map; reflexivity).
+    rewrite Hfst. eapply Hdisk; eauto. apply alookup_some_in. exact Ed. }
+  apply Forall_forall. intros g Hg. apply Forall2_flip in E.
+  destruct (Forall2_in_l _ _ _ _ E Hg) as [x [_ Hx]]. cbv beta in Hx. unfold load_glyph in Hx.
+  destruct (alookup (snd x) (ld_glifs S d)) as [gc|]; [|discriminate].
+  destruct (dec (P_glif S) gc) as [g0|] eqn:Eg; inversion Hx; subst g. split; simpl.
+  - apply (wf_set_name S CL). apply (cl_glif S CL _ _ Eg).
+  - apply (name_of_set S OK).
+Qed.
+
+Lemma load_layers_props : forall (t : tree) ls,
+  load_layers S t 3 = Ok ls -> disk_wf S t -> layers_ok S ls.
+Proof.
+  intros t ls H Hdisk. pose proof Hdisk as [Hlc _]. unfold load_layers in H.
+  destruct (t_lcontents S t) as [lcc|] eqn:E1; [|discriminate].
+  destruct (dec (P_lc S) lcc) as [lc|] eqn:E2; [|discriminate]. cbn [bind] in H.
+  destruct (mapM (load_layer S t) lc) as [ls0| |] eqn:Em; simpl in H; try discriminate.
+  destruct (find_idx (is_default_dir S) ls0) as [i|] eqn:Ei; [|discriminate]. inversion H; subst ls; clear H.
+  apply mapM_Forall2 in Em.
+  assert (Hall : Forall2 (fun e (l : lay) => l_name l = fst e /\ l_dir l = snd e /\ layer_ok S l) lc ls0).
+  { eapply Forall2_impl_in; [|exact Em]. intros e l _ _ He. cbv beta in He. apply (load_layer_props t e l He Hdisk). }
+  assert (Hdirs : map l_dir ls0 = map snd lc).
+  { apply Forall2_map_fst_eq. eapply Forall2_impl_in; [|exact Hall]. intros a b _ _ (_ & H & _). exact H. }
+  assert (Hlcof : lc_of S ls0 = lc).
+  { clear -Hall. induction Hall as [|e l lc ls0 (H1 & H2 & _) F IH]; [reflexivity|].
+    unfold lc_of in *. simpl. rewrite IH, H1, H2. destruct e; reflexivity. }
+  assert (ND : NoDup (map l_dir ls0)) by (rewrite Hdirs; eapply Hlc; eauto).
+  destruct (find_idx_nth _ _ _ Ei) as [d [Hd Hpd]].
+  unfold move_to_front. rewrite Hd.
+  destruct (NoDup_remove_nth l_dir i ls0 d ND Hd) as [ND' Hothers].
+  assert (Hdg : l_dir d = GLYPHS) by (apply list_eqb_N_eq; exact Hpd).
+  assert (Hok0 : Forall (layer_ok S) ls0).
+  { apply Forall_forall. intros l Hl. apply Forall2_flip in Hall.
+    destruct (Forall2_in_l _ _ _ _ Hall Hl) as [e [_ (_ & _ & H)]]. exact H. }
+  assert (Hin : forall x, In x (d :: remove_nth i ls0) -> In x ls0).
+  { intros x [<-|Hx]; [eapply nth_error_In; eauto|eapply in_remove_nth; eauto]. }
+  split; [split; [exact Hdg|]|split; [exact ND'|split]].
+  - apply Forall_forall. intros x Hx. rewrite <- Hdg. apply Hothers. exact Hx.
+  - apply Forall_forall. intros x Hx. rewrite Forall_forall in Hok0. apply Hok0. apply Hin. exact Hx.
+  - apply (lc_wf S OK). unfold lc_of. rewrite Forall_map. apply Forall_forall. intros x Hx.
+    apply (cl_lc S CL) in E2. apply (lc_wf S OK) in E2. rewrite <- Hlcof in E2. unfold lc_of in E2.
+    rewrite Forall_map in E2. rewrite Forall_forall in E2. apply E2. apply Hin. exact Hx.
+Qed.
+
+Theorem load_yields_valid : forall (t : tree) (f : font) mc m,
+  load S t = Ok f -> t_meta S t = Some mc -> dec (P_meta S) mc = Some m -> m_version m = 3 ->
+  disk_wf S t -> ~ orphan_object_libs S t ->
+  font_valid S f.
+Proof.
+  intros t f mc m H Hm1 Hm2 Hv Hdisk Horph.
+  destruct (load_elim t f H) as (mc' & m' & olib & il & og & ok & ls & E1 & E2 & E3 & E4 & E5 & E6 & E7 & E8 &
+                                 F1 & F2 & F3 & F4 & F5).
+  rewrite Hm1 in E1. inversion E1; subst mc'. rewrite Hm2 in E2. inversion E2; subst m'.
+  destruct (F5 Hv) as (G1 & G2 & G3 & G4 & G5). rewrite Hv in *.
+  (* the lib as read *)
+  assert (Hwl0 : wf_dict S (lib0_of olib)).
+  { unfold load_opt in E3. destruct (t_lib S t) as [c|].
+    - destruct (dec (P_lib S) c) as [d|] eqn:Ed; [|discriminate]. inversion E3; subst olib. simpl.
+      apply (lib_wf S OK). apply (cl_lib S CL _ _ Ed).
+    - inversion E3; subst olib. apply wf_dict_empty. }
+  (* font info and lib *)
+  assert (HI : info_ok S (fst il) = true /\ wf (P_info S) (stripped S (fst il)) /\
+               Forall (guide_ok S) (guides_of S (fst il)) /\ wf_dict S (snd il) /\ d_get S OBJ (snd il) = None).
+  { destruct (t_info S t) as [c|] eqn:Ei.
+    - unfold load_fontinfo in E4. change (3 =? 3) with true in E4. cbv iota in E4.
+      destruct (dec (P_info S) c) as [si|] eqn:Es; [|discriminate].
+      destruct (info_ok S _) eqn:Eok; [|discriminate].
+      destruct (load_object_libs S (snd si) (lib0_of olib)) as [r| |] eqn:Er; simpl in E4; try discriminate.
+      inversion E4; subst il. simpl.
+      pose proof (cl_info S CL _ _ Es) as Hwsi.
+      destruct (load_object_libs_props _ _ _ Er Hwl0 (info_ids_wf S CL si Hwsi)) as (P1 & P2 & P3 & P4).
+      assert (Hstr : stripped S {| i_rest := fst si; i_guides := fst r |} = si).
+      { unfold stripped. simpl. rewrite P1. destruct si; reflexivity. }
+      split. { rewrite <- Eok. apply (info_ok_stripped S OK). rewrite Hstr, stripped_bare. apply (peq_refl _ (ok_info S OK)). }
+      split. { rewrite Hstr. exact Hwsi. }
+      split. { unfold guides_of. simpl. exact P4. }
+      split; assumption.
+    - inversion E4; subst il. simpl. split; [apply (info_dflt_ok S OK)|]. split; [apply (info_dflt_wf S OK)|].
+      split; [constructor|]. split; [exact Hwl0|].
+      destruct (d_get S OBJ (lib0_of olib)) eqn:Eo; [|reflexivity]. exfalso. apply Horph. split; [exact Ei|].
+      unfold load_opt in E3. destruct (t_lib S t) as [c|].
+      + destruct (dec (P_lib S) c) as [d|] eqn:Ed; [|discriminate]. inversion E3; subst olib. simpl in Eo.
+        exists c, d. split; [reflexivity|]. split; [exact Ed|]. congruence.
+      + inversion E3; subst olib. simpl in Eo. rewrite (get_empty S OK) in Eo. discriminate. }
+  destruct HI as (I1 & I2 & I3 & I4 & I5).
+  unfold font_valid. rewrite F1, G1, G2, G3, G4, F2.
+  split; [reflexivity|]. split. { rewrite meta_to_write_v3 by reflexivity. apply (meta_wf_norad S CL). }
+  split; [exact I1|]. split; [exact I2|]. split; [exact I3|].
+  split; [apply (info_ok_nodup S CL); exact I1|]. split; [exact I4|]. split; [exact I5|].
+  split.
+  { destruct og as [g|]; simpl; [apply E6; reflexivity|apply (groups_dflt_wf S OK)]. }
+  split.
+  { unfold load_opt in E5. destruct (t_groups S t) as [c|].
+    - destruct (dec (P_groups S) c) as [g|] eqn:Eg; [|discriminate]. inversion E5; subst og. simpl.
+      apply (cl_groups S CL _ _ Eg).
+    - inversion E5; subst og. simpl. apply (groups_dflt_wf S OK). }
+  split.
+  { unfold load_opt in E7. destruct (t_kerning S t) as [c|].
+    - destruct (dec (P_kerning S) c) as [k|] eqn:Ek; [|discriminate]. inversion E7; subst ok. simpl.
+      apply (cl_kerning S CL _ _ Ek).
+    - inversion E7; subst ok. simpl. apply (kerning_dflt_wf S OK). }
+  eapply load_layers_props; eauto.
+Qed.
+
+End Closed.
 
 End Proofs.
